@@ -770,6 +770,41 @@ theorem C16_base_registry_refines (W Wb : World) (c cb : Bool) (ops : List Op2) 
     run2 W Wb { cacheOn := c } { cacheOn := cb } ops = specRun2 W Wb [] [] ops :=
   run2_refines W Wb ops _ _ [] [] (inv_init W c) (inv_init Wb cb)
 
+theorem runD_refines (W : World) (ops : List OpD) :
+    ∀ (r : Reg) (ds : List (Nat × Option Nat)) (regs : List Entry), Inv W r regs →
+      runD false W r ds ops = specRunD W regs (ds.map (·.1)) ops := by
+  induction ops with
+  | nil => intros; rfl
+  | cons op ops ih =>
+    intro r ds regs h
+    cases op with
+    | reg e => simpa [runD, specRunD] using ih _ ds _ (inv_register W r regs e h)
+    | res t =>
+      obtain ⟨h1, h2⟩ := resolve_spec W r regs t h
+      simp only [runD, specRunD]
+      rw [h1, ih _ ds _ h2]
+    | decl t =>
+      obtain ⟨_, h2⟩ := resolve_spec W r regs t h
+      simp only [runD, specRunD]
+      rw [ih _ _ _ h2]
+      simp
+    | use k =>
+      simp only [runD, specRunD, List.getElem?_map]
+      cases hk : ds[k]? with
+      | none => simp [ih _ ds _ h]
+      | some d =>
+        obtain ⟨t, bound⟩ := d
+        obtain ⟨h1, h2⟩ := resolve_spec W r regs t h
+        simp only [Bool.false_and, Bool.false_eq_true, if_false, Option.map_some]
+        rw [h1, ih _ ds _ h2]
+
+/-- **C16 for declared consumers.**  Registrations, lookups, declarations of consumers (fields, item types, property
+and function annotations) and conversions through them, in any order: a conversion through a consumer of class `t`
+uses what the registrations made so far select for `t`, whenever the consumer was declared. -/
+theorem C16_declared_consumers_refine (W : World) (cacheOn : Bool) (h : List OpD) :
+    runD false W { cacheOn := cacheOn } [] h = specRunD W [] [] h :=
+  runD_refines W h _ [] [] (inv_init W cacheOn)
+
 /-- the registry state after any history satisfies the invariant (used to lift the T1 obligations over histories) -/
 theorem run_inv (W : World) (ops : List Op) :
     ∀ (r : Reg) (regs : List Entry), Inv W r regs → Inv W (run W r ops).1 (regs ++ regsOf ops) := by
@@ -874,6 +909,16 @@ own registry's registrations win over the base's whatever the priorities -/
 example : run2 W₀ W₀ { cacheOn := true } { cacheOn := true }
     [.regBase eB, .res 2, .regBase eC, .res 2, .reg ⟨.std [1] true none none, 40, -5⟩, .res 2, .resBase 2]
     = [some 20, some 30, some 40, some 30] := by decide
+
+/-- a consumer declared while one converter is in force follows a later registration … -/
+example : runD false W₀ { cacheOn := true } [] [.reg eB, .decl 2, .use 0, .reg eC, .use 0, .res 2]
+    = [some 20, some 30, some 30] := by decide
+
+/-- … which the code before `fixes/C16-declared-types-late-registration` did not for item types of generics
+(finding `declared-item-types-stale`, fixed): the converter found at declaration was kept.  About `runD true`. -/
+theorem legacy_declared_binding_witness :
+    runD true W₀ { cacheOn := true } [] [.reg eB, .decl 2, .use 0, .reg eC, .use 0, .res 2]
+      ≠ specRunD W₀ [] [] [.reg eB, .decl 2, .use 0, .reg eC, .use 0, .res 2] := by decide
 
 /-- Pre-fix code (61137ef^; finding `prio0-unsorted`, fixed): priority 0 after a positive priority is inserted in
 front unsorted.  About `registerLegacy`, not about the current code. -/
